@@ -585,6 +585,10 @@ class Emitter:
             return cur
         if op in ('call', 'invoke'):
             return ins.x['rt']
+        if op in ('atomicrmw', 'cmpxchg'):
+            return ins.ty
+        if op == 'unsupported':
+            raise IRError('unsupported instruction %s in an emitted function: %s' % (ins.x['why'], ins.line))
         raise IRError('result_type ' + op)
 
     def su(self, n):
@@ -809,6 +813,23 @@ class Emitter:
         if op in ('call', 'invoke'):
             self.emit_call(f, b, ins, body, decls, env, cx, edge, retz, tmpc)
             return
+        if op == 'fence': return
+        if op == 'atomicrmw':
+            # sequential semantics (no interleaving is modelled; C19 is decided by the no-shared-write condition instead)
+            pp, vv = cx(ins.ops[0]), cx(ins.ops[1]); T = self.ct(ins.ty)
+            cop = {'add': '+', 'sub': '-', 'and': '&', 'or': '|', 'xor': '^'}.get(ins.x['aop'])
+            if r: A('%s = *%s;' % (r, pp))
+            if ins.x['aop'] == 'xchg': A('*%s = %s;' % (pp, vv))
+            elif cop: A('*%s = (%s)(*%s %s %s);' % (pp, T, pp, cop, vv))
+            else: raise IRError('atomicrmw ' + ins.x['aop'])
+            return
+        if op == 'cmpxchg':
+            pp, cv, nv = cx(ins.ops[0]), cx(ins.ops[1]), cx(ins.ops[2])
+            self.complete(ins.ty)
+            A('%s.f0 = *%s; %s.f1 = (u1)(%s.f0 == %s); if (%s.f1) *%s = %s;' % (r, pp, r, r, cv, r, pp, nv))
+            return
+        if op == 'unsupported':
+            raise IRError('unsupported instruction %s in an emitted function: %s' % (ins.x['why'], ins.line))
         raise IRError('emit: unsupported instruction ' + op)
 
     def emit_call(self, f, b, ins, body, decls, env, cx, edge, retz, tmpc):
@@ -1047,7 +1068,7 @@ class Emitter:
             fbodies.append('')
         for n in sorted(self.rg):
             g = m.globals[n]
-            if n.startswith('_ZTI') or n.startswith('_ZTS') or n.startswith('llvm.'): continue
+            if n.startswith('_ZTI') or n.startswith('llvm.'): continue
             self.complete(g.ty) if self.isagg(g.ty) else self.ct(g.ty)
             cn = self.gn(n)
             if g.tls: self.warnings.append('thread_local global %s treated as plain global' % n)
